@@ -521,6 +521,9 @@ def str_method(world, o, name, args, kw, it, node):
             if not parts:
                 return ''
             return SStr(z3.Concat(*parts) if len(parts) > 1 else parts[0])
+        if isinstance(q, SVal):
+            return SStr(uf('str_join_val', z3.StringSort(), S.Val,
+                           z3.StringSort())(s, q.t))
         if isinstance(q, SSeq):
             return SStr(uf('str_join', z3.StringSort(),
                            z3.ArraySort(z3.IntSort(), q.elem.sort()),
@@ -731,9 +734,10 @@ def spec_helpers(world, it=None):
     def val(it, node, x):
         return SVal(S.box_any(x))
 
-    d = dict(val=val, forall=forall, exists=exists, implies=implies, iff=iff,
+    d = dict(Int='Int', Str='Str', Val='Val', val=val, forall=forall, exists=exists, implies=implies, iff=iff,
              ite=ite, truthy=truthy, ufn=ufn)
-    return {k: Model(k, v, True) for k, v in d.items()}
+    return {k: (Model(k, v, True) if callable(v) else v)
+            for k, v in d.items()}
 
 
 def apply_uf(name, args, ret='Val'):
@@ -775,6 +779,12 @@ def _quant(world, it, dom, fn, universal):
         return SBool(z3.And(*body) if universal else z3.Or(*body))
     elif dom == 'Int':
         guard = z3.BoolVal(True)
+    elif dom in ('Str', 'Val'):
+        t = TStr if dom == 'Str' else TVal
+        v = z3.Const(S.fresh_name('q'), t.sort())
+        body = S.as_bool_term(it.truth(it.call(fn, [t.wrap(v)], {})))
+        return SBool(z3.ForAll([v], body) if universal
+                     else z3.Exists([v], body))
     else:
         raise Unsupported('quantifier domain %r' % (dom,))
     body = S.as_bool_term(it.truth(it.call(fn, [SInt(k)], {})))
